@@ -275,6 +275,25 @@ fn run(ctx: &mut Ctx) {
             });
         }
     }
+    // contents with long runs of zero bytes (a constructor may treat "nothing to copy" specially)
+    ctx.bound("new_boxed_zero_runs", "every sequence of 1..=3 slices over {64 zero bytes, 63 zero bytes, 128 zero bytes, 4096 zero bytes, 3 marker bytes, 64 marker bytes, empty}, all five header kinds");
+    {
+        let pieces: Vec<Vec<u8>> = vec![vec![0u8; 64], vec![0u8; 63], vec![0u8; 128], vec![0u8; 4096], (0..3).map(|i| marker(i, 66) | 1).collect(), (0..64).map(|i| marker(i, 68) | 1).collect(), vec![]];
+        for k in 1..=3usize {
+            for code in 0..pieces.len().pow(k as u32) {
+                let sel: Vec<usize> = (0..k).map(|i| (code / pieces.len().pow(i as u32)) % pieces.len()).collect();
+                let content: Vec<u8> = sel.iter().flat_map(|&i| pieces[i].iter().copied()).collect();
+                let split: Vec<usize> = sel.iter().map(|&i| pieces[i].len()).collect();
+                let hk = code % 5;
+                let describe = || J::obj().set("part", "new_boxed_zero_runs").set("header_kind", hk).set("pieces", format!("{:?} (0 = 64 zeros, 1 = 63 zeros, 2 = 128 zeros, 3 = 4096 zeros, 4 = 3 non-zero bytes, 5 = 64 non-zero bytes, 6 = empty)", sel));
+                ctx.leaf(describe, |ctx| {
+                    ctx.state_direct();
+                    ctx.nontrivial();
+                    dispatch(ctx, hk, &content, &split);
+                });
+            }
+        }
+    }
     ctx.bound("new_boxed_large", "contents of 255..257, 1023..1025, 4087, 4088, 4095..4097, 65535..65537 and 2^20 bytes split at every pair of cut points from {0, 1, n/2, n-1, n}, all five header kinds");
     for n in [255usize, 256, 257, 1023, 1024, 1025, 4087, 4088, 4095, 4096, 4097, 65535, 65536, 65537, 1 << 20] {
         let content: Vec<u8> = (0..n).map(|i| marker(i, 67)).collect();
